@@ -305,6 +305,12 @@ func c16Run(r *core.Run) {
 	root, cleanup := c16Fixture()
 	defer cleanup()
 	paths := c16Paths(segs)
+	{
+		l := core.NewLocal()
+		c16Reuse(root, c16Paths(2), l)
+		l.States += 2
+		r.Merge(l)
+	}
 	var opts []c16Opts
 	for _, pf := range []string{"", "st", "/st", "st/", "/st/"} {
 		for _, ix := range []string{"", "g.txt"} {
@@ -380,10 +386,73 @@ func c16Run(r *core.Run) {
 	})
 }
 
+// c16Reuse: two Static handlers built one after the other from ONE options slice that the caller edits in
+// between (directory and prefix), next to twins built from two independent option values: every request
+// must be answered identically (a handler is configured by the values it was given when it was built).
+func c16Reuse(root string, paths []string, l *core.Local) (first string) {
+	build := func(shared bool) *flamego.Flame {
+		f := flamego.NewWithLogger(io.Discard)
+		dirA, dirB := filepath.Join(root, "pub"), filepath.Join(root, "pub", "d")
+		if shared {
+			opts := make([]flamego.StaticOptions, 1, 2)
+			opts[0] = flamego.StaticOptions{Directory: dirA, Prefix: "st"}
+			f.Use(flamego.Static(opts...))
+			opts[0].Directory, opts[0].Prefix, opts[0].Index = dirB, "pub", "h"
+			f.Use(flamego.Static(opts...))
+			opts[0] = flamego.StaticOptions{Directory: filepath.Join(root, "does-not-exist")}
+		} else {
+			f.Use(flamego.Static(flamego.StaticOptions{Directory: dirA, Prefix: "st"}))
+			f.Use(flamego.Static(flamego.StaticOptions{Directory: dirB, Prefix: "pub", Index: "h"}))
+		}
+		f.NotFound(func(c flamego.Context) {
+			c.ResponseWriter().WriteHeader(299)
+			_, _ = c.ResponseWriter().Write([]byte("MARKER"))
+		})
+		return f
+	}
+	fs, fi := build(true), build(false)
+	serve := func(f *flamego.Flame, p string) string {
+		spy := &c01Spy{hdr: http.Header{}}
+		var pan interface{}
+		func() {
+			defer func() { pan = recover() }()
+			f.ServeHTTP(spy, newReq("GET", p))
+		}()
+		return fmt.Sprintf("status %d body %q location %q panic %v", spy.code, trunc(spy.body.String()), spy.hdr.Get("Location"), pan)
+	}
+	for _, p := range paths {
+		for _, pre := range []string{"/st", "/pub", ""} {
+			req := pre + p
+			l.Evals++
+			l.Transitions++
+			l.Traces++
+			l.NonTrivial++
+			a, b := serve(fs, req), serve(fi, req)
+			if a != b {
+				bad := fmt.Sprintf("GET %q: handlers built from one edited options slice answer %s; handlers built from independent option values answer %s", req, a, b)
+				if first == "" {
+					first = bad
+				}
+				l.Class("mismatch")
+				l.Violate("options-slice-reused/GET", bad, c16Case{Method: "options-reuse", PathHex: fmt.Sprintf("%x", req), Path: fmt.Sprintf("%q", req)})
+			} else {
+				l.Class("options-reuse:same-answer")
+			}
+		}
+	}
+	return first
+}
+
 func c16Replay(raw json.RawMessage) (bool, string) {
 	var c c16Case
 	if err := json.Unmarshal(raw, &c); err != nil {
 		return false, err.Error()
+	}
+	if c.Method == "options-reuse" {
+		root, cleanup := c16Fixture()
+		defer cleanup()
+		bad := c16Reuse(root, c16Paths(2), core.NewLocal())
+		return bad != "", bad
 	}
 	var p []byte
 	if c.PathHex != "" {
